@@ -172,7 +172,39 @@ type universe struct {
 func typeKey(t types.Type) string {
 	// full package paths; named types additionally carry their dynamic class so that a named
 	// type and a basic type of the same spelling stay apart
-	return fmt.Sprintf("%T|%s", t, types.TypeString(t, nil))
+	// ... and unnamed struct types with unexported fields are different types when different packages declare
+	// them, although they are spelled alike (`struct{Key string; rev int}` here and in an imported package)
+	return fmt.Sprintf("%T|%s|%s", t, types.TypeString(t, nil), unexportedOwners(t, 0))
+}
+
+// unexportedOwners lists the declaring packages of the unexported fields of the unnamed struct types inside t
+func unexportedOwners(t types.Type, depth int) string {
+	if depth > 6 {
+		return ""
+	}
+	switch x := t.(type) {
+	case *types.Pointer:
+		return unexportedOwners(x.Elem(), depth+1)
+	case *types.Slice:
+		return unexportedOwners(x.Elem(), depth+1)
+	case *types.Array:
+		return unexportedOwners(x.Elem(), depth+1)
+	case *types.Chan:
+		return unexportedOwners(x.Elem(), depth+1)
+	case *types.Map:
+		return unexportedOwners(x.Key(), depth+1) + unexportedOwners(x.Elem(), depth+1)
+	case *types.Struct:
+		out := ""
+		for i := 0; i < x.NumFields(); i++ {
+			f := x.Field(i)
+			if !f.Exported() && f.Pkg() != nil {
+				out += f.Name() + "@" + f.Pkg().Path() + ";"
+			}
+			out += unexportedOwners(f.Type(), depth+1)
+		}
+		return out
+	}
+	return ""
 }
 
 func (u *universe) id(t types.Type) int {
